@@ -861,7 +861,53 @@ func validClient(p any) (valid bool, panicked bool) {
 }
 
 func hexOf(b []byte) string { return hex.EncodeToString(b) }
+
+// textOf: hex, or for long texts made of one repeated opener and closer
+// "rep:<n>:<hex prefix>:<hex opener>:<hex middle>:<hex closer>:<hex suffix>"
+func textOf(b []byte) string {
+	if len(b) < 4096 {
+		return hexOf(b)
+	}
+	for _, oc := range [][2]string{{"[", "]"}, {`{"a":`, "}"}} {
+		i := bytes.Index(b, []byte(oc[0]+oc[0]+oc[0]+oc[0]))
+		if i < 0 {
+			continue
+		}
+		n := 0
+		k := i
+		for bytes.HasPrefix(b[k:], []byte(oc[0])) {
+			n++
+			k += len(oc[0])
+		}
+		e := bytes.Index(b[k:], []byte(strings.Repeat(oc[1], n)))
+		if e < 0 {
+			continue
+		}
+		mid := b[k : k+e]
+		suf := b[k+e+n*len(oc[1]):]
+		return fmt.Sprintf("rep:%d:%s:%s:%s:%s:%s", n, hexOf(b[:i]), hexOf([]byte(oc[0])), hexOf(mid), hexOf([]byte(oc[1])), hexOf(suf))
+	}
+	return hexOf(b)
+}
+
 func unhex(s string) []byte {
+	if strings.HasPrefix(s, "rep:") {
+		f := strings.Split(s, ":")
+		if len(f) != 7 {
+			common.Fatalf("bad rep text")
+		}
+		n, err := strconv.Atoi(f[1])
+		if err != nil {
+			common.Fatalf("bad rep count")
+		}
+		var b []byte
+		b = append(b, unhex(f[2])...)
+		b = append(b, bytes.Repeat(unhex(f[3]), n)...)
+		b = append(b, unhex(f[4])...)
+		b = append(b, bytes.Repeat(unhex(f[5]), n)...)
+		b = append(b, unhex(f[6])...)
+		return b
+	}
 	b, err := hex.DecodeString(s)
 	if err != nil {
 		common.Fatalf("bad hex in case: %v", err)
